@@ -86,3 +86,40 @@ pub async fn enqueue_once(mode: &str, limit: usize, qlen: usize, busy: bool, wor
     let d: Vec<String> = rec.0.lock().unwrap().iter().map(|(r, m)| format!("{r}:{m}")).collect();
     format!("queue={};discards={};running={};ok={}", q.join("+"), d.join("+"), w.curr_jobs.len(), r.is_ok() as u8)
 }
+
+/// One bookkeeping operation of a worker record from an explicit pre-state (`queue`: keys of the queued jobs, head first; `curr`: keys in
+/// flight; the pending-key table is the one the invariant prescribes for them). `op`: "enqueue:<key>" | "complete:<key>" | "replace".
+/// Returns "queue=k+k;curr=k+k;pending=k:n+k:n".
+pub async fn books_once(queue: &[u64], curr: &[u64], op: &str, worker_dead: bool) -> String {
+    let mut w = record(0, "avail", WorkerDiscardSettings::None).await;
+    if worker_dead {
+        w.actor.stop(None);
+        if let Some(h) = w.handle.take() {
+            let _ = h.await;
+        }
+    }
+    for (i, k) in queue.iter().enumerate() {
+        w.message_queue.push_back(job(*k, i as u64));
+        *w.pending_key_counts.entry(*k).or_default() += 1;
+    }
+    for k in curr {
+        w.curr_jobs.insert(*k, JobOptions::default());
+        *w.pending_key_counts.entry(*k).or_default() += 1;
+    }
+    if let Some(k) = op.strip_prefix("enqueue:") {
+        let _ = w.enqueue_job(job(k.parse().unwrap(), 100));
+    } else if let Some(k) = op.strip_prefix("complete:") {
+        let _ = w.worker_complete(k.parse().unwrap());
+    } else if op == "replace" {
+        let (actor, handle) = crate::Actor::spawn(None, NullWorker, ()).await.expect("worker");
+        let _ = w.replace_worker(actor, handle);
+    } else {
+        panic!("unknown op {op}");
+    }
+    let q: Vec<String> = w.message_queue.iter().map(|j| j.key.to_string()).collect();
+    let mut c: Vec<String> = w.curr_jobs.keys().map(|k| k.to_string()).collect();
+    c.sort();
+    let mut p: Vec<String> = w.pending_key_counts.iter().map(|(k, n)| format!("{k}:{n}")).collect();
+    p.sort();
+    format!("queue={};curr={};pending={}", q.join("+"), c.join("+"), p.join("+"))
+}
